@@ -245,27 +245,36 @@ func prepareQuery(ctx context.Context, typ Type, selectionSet *SelectionSet, don
 }
 
 func SafeExecuteBatchResolver(ctx context.Context, field *Field, sources []interface{}, args interface{}, selectionSet *SelectionSet) (results []interface{}, err error) {
+	// recover() returns nil after panic(nil) (go < 1.21, or GODEBUG=panicnil=1),
+	// so whether the resolver returned is tracked separately.
+	returned := false
 	defer func() {
-		if panicErr := recover(); panicErr != nil {
+		if panicErr := recover(); panicErr != nil || !returned {
 			const size = 64 << 10
 			buf := make([]byte, size)
 			buf = buf[:runtime.Stack(buf, false)]
 			results, err = nil, fmt.Errorf("graphql: panic: %v\n%s", panicErr, buf)
 		}
 	}()
-	return field.BatchResolver(ctx, sources, args, selectionSet)
+	results, err = field.BatchResolver(ctx, sources, args, selectionSet)
+	returned = true
+	return results, err
 }
 
 func SafeExecuteResolver(ctx context.Context, field *Field, source, args interface{}, selectionSet *SelectionSet) (result interface{}, err error) {
+	// See SafeExecuteBatchResolver.
+	returned := false
 	defer func() {
-		if panicErr := recover(); panicErr != nil {
+		if panicErr := recover(); panicErr != nil || !returned {
 			const size = 64 << 10
 			buf := make([]byte, size)
 			buf = buf[:runtime.Stack(buf, false)]
 			result, err = nil, fmt.Errorf("graphql: panic: %v\n%s", panicErr, buf)
 		}
 	}()
-	return field.Resolve(ctx, source, args, selectionSet)
+	result, err = field.Resolve(ctx, source, args, selectionSet)
+	returned = true
+	return result, err
 }
 
 type ExecutorRunner interface {
